@@ -3,6 +3,7 @@
 mod common;
 mod cw20;
 mod cw3;
+mod cw4;
 mod ics20;
 mod thr;
 
@@ -59,6 +60,7 @@ fn main() {
                 "cw20" => cw20::run_schedule(&sched, run_no, &mut out),
                 "cw3" => cw3::run_schedule(&sched, run_no, &mut out),
                 "ics20" => ics20::run_schedule(&sched, run_no, &mut out),
+                "cw4" => cw4::run_schedule(&sched, run_no, &mut out),
                 _ => {
                     eprintln!("unknown system {sys}");
                     std::process::exit(2);
@@ -82,6 +84,7 @@ fn main() {
             "cw20" => cw20::random_run(&mut rng, run_no, len, &mut out),
             "cw3" => cw3::random_run(&mut rng, run_no, len, &mut out),
             "ics20" => ics20::random_run(&mut rng, run_no, len, &mut out),
+            "cw4" => cw4::random_run(&mut rng, run_no, len, &mut out),
             _ => {
                 eprintln!("unknown system {sys}");
                 std::process::exit(2);
